@@ -2,7 +2,7 @@
    This file contains statements only; every proof is a reference to a lemma of the
    development.  Model: Scalar/Itv.v (mirror of ikos::interval<z_number>). *)
 From Coq Require Import ZArith.
-From CrabV Require Import Base.ZInf Scalar.Itv Scalar.ItvSound.
+From CrabV Require Import Base.ZInf Scalar.Itv Scalar.ItvSound Scalar.ItvTight.
 Local Open Scope Z_scope.
 
 Theorem C08_itv_add_sound : forall a b x y, gamma a x -> gamma b y -> gamma (iadd a b) (x + y).
@@ -69,6 +69,32 @@ Theorem C08_itv_trim_sound :
   forall i j x c, gamma i x -> isingleton j = Some c -> x <> c -> gamma (itrim i j) x.
 Proof. exact itrim_sound. Qed.
 
+(* Tightness: the result is below every interval that contains all concrete results. *)
+Theorem C08_itv_add_tight : forall a b i, wf a -> wf b ->
+  (forall x y, gamma a x -> gamma b y -> gamma i (x + y)) -> ileq (iadd a b) i = true.
+Proof. exact iadd_tight. Qed.
+Theorem C08_itv_sub_tight : forall a b i, wf a -> wf b ->
+  (forall x y, gamma a x -> gamma b y -> gamma i (x - y)) -> ileq (isub a b) i = true.
+Proof. exact isub_tight. Qed.
+Theorem C08_itv_neg_tight : forall a i, wf a ->
+  (forall x, gamma a x -> gamma i (- x)) -> ileq (ineg a) i = true.
+Proof. exact ineg_tight. Qed.
+Theorem C08_itv_mul_tight : forall a b i, wf a -> wf b ->
+  (forall x y, gamma a x -> gamma b y -> gamma i (x * y)) -> ileq (imul a b) i = true.
+Proof. exact imul_tight. Qed.
+Theorem C08_itv_join_tight : forall a b i, wf a -> wf b ->
+  (forall x, gamma a x \/ gamma b x -> gamma i x) -> ileq (ijoin a b) i = true.
+Proof. exact ijoin_tight. Qed.
+Theorem C08_itv_meet_tight : forall a b i, wf a -> wf b ->
+  (forall x, gamma a x -> gamma b x -> gamma i x) -> ileq (imeet a b) i = true.
+Proof. exact imeet_tight. Qed.
+(* well-formedness (the representation invariant the tightness theorems assume) is
+   established by the constructors and preserved *)
+Theorem C08_itv_wf_preserved : forall a b, wf a -> wf b ->
+  wf (iadd a b) /\ wf (isub a b) /\ wf (ineg a) /\ wf (ijoin a b) /\ wf (imeet a b).
+Proof. intros a b Wa Wb. repeat split; [apply wf_iadd|apply wf_isub|apply wf_ineg|apply wf_ijoin|apply wf_imeet]; assumption. Qed.
+
+
 Print Assumptions C08_itv_add_sound.
 Print Assumptions C08_itv_sub_sound.
 Print Assumptions C08_itv_neg_sound.
@@ -94,3 +120,10 @@ Print Assumptions C08_itv_eq_sound.
 Print Assumptions C08_itv_mem_exact.
 Print Assumptions C08_itv_singleton_exact.
 Print Assumptions C08_itv_trim_sound.
+Print Assumptions C08_itv_add_tight.
+Print Assumptions C08_itv_sub_tight.
+Print Assumptions C08_itv_neg_tight.
+Print Assumptions C08_itv_mul_tight.
+Print Assumptions C08_itv_join_tight.
+Print Assumptions C08_itv_meet_tight.
+Print Assumptions C08_itv_wf_preserved.
